@@ -1,10 +1,20 @@
 import Ovldverif.Model.Rewrite
 /-!
-# C09 — source rewriting changes nothing except the recurse call sites (expression subset of Model/Rewrite.lean)
+# C09 — source rewriting changes nothing except the recurse / call_next call sites (expression subset of Model/Rewrite.lean)
 
-`C09_rewrite_preserves`: for every expression that does not mention the reserved temporaries, the rewritten
-expression yields the same value or exception, the same sequence of side effects, and the same user variables —
-each argument expression is evaluated exactly once, left to right, before the lookup.
+`C09_rewrite_preserves`: for every well-formed expression that does not mention the reserved temporaries, the
+rewritten expression yields the same value or exception, the same sequence of side effects, and the same user
+variables — each positional and keyword argument expression of `recurse(...)` / `call_next(...)` is evaluated
+exactly once, left to right (positional arguments, then keyword values), before the lookup; the lookup consults
+the same table with the same key as the reference dispatcher (`G.dispatchObj` / `G.nextObj`).
+`C09_args_once_in_order` (`…_next`): the log seen by the dispatched method for tick-tagged arguments.
+`rw_id`: expressions without such calls are returned unchanged.
+
+Proof layout: `Sim` (result, log, user variables equal; temporaries outside the consumed prefix range untouched);
+`PArgs` / `PKwArgs` say what evaluating the key parts `type(__TMPk_i := aᵢ')` / `('n', type(__TMPk_n := e'))` achieves;
+`sim_call` is the call-site lemma shared by `recurse` and `call_next`; `pExpr` is the induction over expression size.
+(`match` expressions written in this file never have to unify with those of the model: matchers are not shared
+across modules.)
 -/
 set_option autoImplicit false
 namespace Ovld.Rw
@@ -37,6 +47,8 @@ structure WOK (W : World) : Prop where
   recurse : W.globals "recurse" = some (.g .dispatchObj)
   map : W.globals "MAP" = some (.g .mapObj)
   typ : W.globals "type" = some (.g .typeFn)
+  callNext : W.globals "call_next" = some (.g .nextObj)
+  code : W.globals "CODE" = some (.g (.codeObj W.code))
 
 def PExpr (W : World) (e : Expr) : Prop :=
   ∀ (k : Nat) (ρ ρ₂ : Env) (l : Log), userOnly e = true → Agree ρ ρ₂ →
@@ -246,28 +258,348 @@ theorem evalList_tmpVars (W : World) (k : Nat) (ρ : Env) (l : Log) :
       rw [e]; exact this)
     simp only [tmpVars, evalList, eval, h0, ih]
 
-theorem mapM_toKeyElt (W : World) : ∀ (avs : List Val),
-    (avs.map (fun v => Val.ty (W.classOf v))).mapM toKeyElt = some (keyOf W avs [])
-  | [] => by simp [keyOf]
-  | v :: vs => by
-    have ih := mapM_toKeyElt W vs
-    simp only [keyOf, List.map_nil, List.append_nil] at ih ⊢
-    simp [List.mapM_cons, toKeyElt, ih]
 
-theorem rw_call_recurse (args : List Expr) (k : Nat) :
-    rw (.call (.glob "recurse") args []) k =
-      ((.call (.subscript (.glob "MAP") (.tuple (rwArgs args k 0 (k + 1)).1)) (tmpVars k 0 args) []), (rwArgs args k 0 (k + 1)).2) := by
+/-- evaluation of `('name', type(__TMP := a'))` -/
+theorem eval_pairTypeCall (W : World) (ok : WOK W) (nm : String) (x : Name) (a : Expr) (ρ : Env) (l : Log) :
+    eval W (.pair nm (typeCall x a)) ρ l =
+      match eval W a ρ l with
+      | (.ok v, ρ', l') => (.ok (.kwTy nm (W.classOf v)), setVar ρ' x v, l')
+      | (.error e, ρ', l') => (.error e, ρ', l') := by
+  simp only [eval]
+  rw [eval_typeCall W ok]
+  generalize eval W a ρ l = o
+  obtain ⟨r, ρ', l'⟩ := o
+  cases r with
+  | error e => rfl
+  | ok v => rfl
+
+/-- what evaluating the key parts `('n', type(__TMPk_n := e'))` achieves, relative to evaluating the original keyword
+    values: same values/effects, the temporaries `__TMPk_n` hold the values (read back by `n=__TMPk_n`), no other slot
+    of prefix `k` is touched -/
+def PKwArgs (W : World) (kws : List (String × Expr)) : Prop :=
+  ∀ (k c : Nat) (ρ ρ₂ : Env) (l : Log), userOnlyK kws = true → distinctNames (kws.map Prod.fst) = true → Agree ρ ρ₂ → k < c →
+    c ≤ (rwKws kws k c).2 ∧
+    (match evalKws W kws ρ l with
+     | (.ok kvs, ρ', l') =>
+        ∃ ρ₂', evalList W (rwKws kws k c).1 ρ₂ l = (.ok (kvs.map (fun p => Val.kwTy p.1 (W.classOf p.2))), ρ₂', l')
+          ∧ Agree ρ' ρ₂'
+          ∧ (∀ j s, (j < k ∨ j ≥ (rwKws kws k c).2) → ρ₂' (.tmp j s) = ρ₂ (.tmp j s))
+          ∧ (∀ s, (∀ n, n ∈ kws.map Prod.fst → s ≠ Slot.kw n) → ρ₂' (.tmp k s) = ρ₂ (.tmp k s))
+          ∧ (∀ l'', evalKws W (tmpKws k kws) ρ₂' l'' = (.ok kvs, ρ₂', l''))
+     | (.error e, ρ', l') =>
+        ∃ ρ₂', evalList W (rwKws kws k c).1 ρ₂ l = (.error e, ρ₂', l') ∧ Agree ρ' ρ₂'
+          ∧ (∀ j s, (j < k ∨ j ≥ (rwKws kws k c).2) → ρ₂' (.tmp j s) = ρ₂ (.tmp j s)))
+
+theorem pKwArgs_of (W : World) (ok : WOK W) : ∀ (kws : List (String × Expr)), (∀ p ∈ kws, PExpr W p.2) → PKwArgs W kws
+  | [], _ => by
+    intro k c ρ ρ₂ l _ _ ha _
+    simp only [rwKws, evalKws, evalList]
+    refine ⟨Nat.le_refl _, ρ₂, rfl, ha, fun _ _ _ => rfl, fun _ _ => rfl, ?_⟩
+    intro l''; simp only [tmpKws, evalKws]
+  | (nm, a) :: kws, h => by
+    intro k c ρ ρ₂ l hu hd ha hkc
+    simp only [userOnlyK, Bool.and_eq_true] at hu
+    simp only [List.map_cons, distinctNames, Bool.and_eq_true, Bool.not_eq_true', List.contains_eq_mem,
+      decide_eq_false_iff_not] at hd
+    have he : PExpr W a := h (nm, a) (List.mem_cons_self ..)
+    have he := he c ρ ρ₂ l hu.1 ha
+    have hes := pKwArgs_of W ok kws (fun x hx => h x (List.mem_cons_of_mem _ hx))
+    obtain ⟨hk, ⟨hr, hl, hag, hf⟩⟩ := he
+    simp only [rwKws, evalKws, evalList]
+    rw [eval_pairTypeCall W ok]
+    generalize hE : eval W a ρ l = o at hr hl hag
+    generalize hE2 : eval W (rw a c).1 ρ₂ l = o2 at hr hl hag hf
+    obtain ⟨r, ρ', l'⟩ := o
+    obtain ⟨r2, ρ2', l2'⟩ := o2
+    simp only at hr hl hag hf
+    subst hr; subst hl
+    have hrest := hes k (rw a c).2 ρ' (setVar ρ2' (.tmp k (.kw nm)) (match r2 with | .ok v => v | .error _ => .int 0)) l2' hu.2 hd.2
+    cases r2 with
+    | error ex =>
+      dsimp only
+      have hc2 := (hes k (rw a c).2 ρ' ρ2' l2' hu.2 hd.2 hag (by omega)).1
+      refine ⟨by omega, ρ2', rfl, hag, ?_⟩
+      intro j s hj
+      exact hf j s (by omega)
+    | ok v =>
+      dsimp only at hrest ⊢
+      have hag' : Agree ρ' (setVar ρ2' (.tmp k (.kw nm)) v) := hag.setTmp k (.kw nm) v
+      obtain ⟨hc2, hmatch⟩ := hrest hag' (by omega)
+      refine ⟨by omega, ?_⟩
+      generalize hF : evalKws W kws ρ' l2' = p at hmatch
+      obtain ⟨q, ρq, lq⟩ := p
+      cases q with
+      | error ex =>
+        dsimp only at hmatch ⊢
+        obtain ⟨ρ₂', hev, hag2, hfr⟩ := hmatch
+        refine ⟨ρ₂', by rw [hev], hag2, ?_⟩
+        intro j s hj
+        rw [hfr j s (by omega)]
+        have : Name.tmp j s ≠ Name.tmp k (.kw nm) := by
+          intro e; injection e with e1 _; omega
+        simp only [setVar, this, if_false]
+        exact hf j s (by omega)
+      | ok vs =>
+        dsimp only at hmatch ⊢
+        obtain ⟨ρ₂', hev, hag2, hfr, hother, hread⟩ := hmatch
+        refine ⟨ρ₂', by rw [hev]; rfl, hag2, ?_, ?_, ?_⟩
+        · intro j s hj
+          rw [hfr j s (by omega)]
+          have : Name.tmp j s ≠ Name.tmp k (.kw nm) := by
+            intro e; injection e with e1 _; omega
+          simp only [setVar, this, if_false]
+          exact hf j s (by omega)
+        · intro s hs
+          rw [hother s (fun n hn => hs n (List.mem_cons_of_mem _ hn))]
+          have : Name.tmp k s ≠ Name.tmp k (.kw nm) := by
+            intro e; injection e with _ e2
+            exact hs nm (List.mem_cons_self ..) e2
+          simp only [setVar, this, if_false]
+          exact hf k s (by omega)
+        · intro l''
+          have hhead : ρ₂' (.tmp k (.kw nm)) = some v := by
+            rw [hother (.kw nm) (by intro n hn e; injection e with e; exact hd.1 (e ▸ hn))]
+            simp [setVar]
+          simp only [tmpKws, evalKws, eval, hhead, hread]
+
+theorem evalList_append_err1 (W : World) : ∀ (xs ys : List Expr) (ρ ρ' : Env) (l l' : Log) (e : Exn),
+    evalList W xs ρ l = (.error e, ρ', l') → evalList W (xs ++ ys) ρ l = (.error e, ρ', l')
+  | [], _, _, _, _, _, _, h => by simp [evalList] at h
+  | x :: xs, ys, ρ, ρ', l, l', e, h => by
+    simp only [List.cons_append, evalList] at h ⊢
+    generalize eval W x ρ l = o at h ⊢
+    obtain ⟨r, ρ1, l1⟩ := o
+    cases r with
+    | error ex => exact h
+    | ok v =>
+      dsimp only at h ⊢
+      generalize hE : evalList W xs ρ1 l1 = p at h
+      obtain ⟨q, ρ2, l2⟩ := p
+      cases q with
+      | ok vs => simp at h
+      | error ex =>
+        rw [evalList_append_err1 W xs ys ρ1 ρ2 l1 l2 ex hE]
+        exact h
+
+theorem evalList_append_ok (W : World) : ∀ (xs ys : List Expr) (ρ ρ' : Env) (l l' : Log) (vs : List Val),
+    evalList W xs ρ l = (.ok vs, ρ', l') →
+      evalList W (xs ++ ys) ρ l =
+        ((evalList W ys ρ' l').1.map (fun ws => vs ++ ws), (evalList W ys ρ' l').2)
+  | [], ys, ρ, ρ', l, l', vs, h => by
+    simp only [evalList, Prod.mk.injEq, Except.ok.injEq] at h
+    obtain ⟨h1, h2, h3⟩ := h
+    subst h1; subst h2; subst h3
+    simp only [List.nil_append]
+    generalize evalList W ys ρ l = o
+    obtain ⟨r, ρ1, l1⟩ := o
+    cases r <;> rfl
+  | x :: xs, ys, ρ, ρ', l, l', vs, h => by
+    simp only [List.cons_append, evalList] at h ⊢
+    generalize eval W x ρ l = o at h ⊢
+    obtain ⟨r, ρ1, l1⟩ := o
+    cases r with
+    | error ex => simp at h
+    | ok v =>
+      dsimp only at h ⊢
+      generalize hE : evalList W xs ρ1 l1 = p at h
+      obtain ⟨q, ρ2, l2⟩ := p
+      cases q with
+      | error ex => simp at h
+      | ok ws =>
+        simp only [Prod.mk.injEq, Except.ok.injEq] at h
+        obtain ⟨h1, h2, h3⟩ := h
+        subst h1; subst h2; subst h3
+        rw [evalList_append_ok W xs ys ρ1 ρ2 l1 l2 ws hE]
+        generalize evalList W ys ρ2 l2 = o
+        obtain ⟨r, ρ3, l3⟩ := o
+        cases r <;> rfl
+
+theorem mapM_append_some {α β : Type} (f : α → Option β) : ∀ (xs ys : List α) (a b : List β),
+    xs.mapM f = some a → ys.mapM f = some b → (xs ++ ys).mapM f = some (a ++ b)
+  | [], ys, a, b, h1, h2 => by
+    simp at h1; subst h1; simpa using h2
+  | x :: xs, ys, a, b, h1, h2 => by
+    simp only [List.mapM_cons, List.cons_append] at h1 ⊢
+    cases hx : f x with
+    | none => simp [hx] at h1
+    | some y =>
+      cases hxs : xs.mapM f with
+      | none => simp [hx, hxs] at h1
+      | some a' =>
+        simp [hx, hxs] at h1
+        subst h1
+        simp [mapM_append_some f xs ys a' b hxs h2]
+
+theorem mapM_toKeyElt_pos (W : World) : ∀ (avs : List Val),
+    (avs.map (fun v => Val.ty (W.classOf v))).mapM toKeyElt = some (avs.map (fun v => KeyElt.pos (W.classOf v)))
+  | [] => by simp
+  | v :: vs => by simp [List.mapM_cons, toKeyElt, mapM_toKeyElt_pos W vs]
+
+theorem mapM_toKeyElt_kw (W : World) : ∀ (kvs : List (String × Val)),
+    (kvs.map (fun p => Val.kwTy p.1 (W.classOf p.2))).mapM toKeyElt = some (kvs.map (fun (n, v) => KeyElt.kw n (W.classOf v)))
+  | [] => by simp
+  | (n, v) :: vs => by simp [List.mapM_cons, toKeyElt, mapM_toKeyElt_kw W vs]
+
+theorem mapM_toKeyElt (W : World) (hvs : List Val) (hks : List KeyElt) (h : hvs.mapM toKeyElt = some hks)
+    (avs : List Val) (kvs : List (String × Val)) :
+    (hvs ++ (avs.map (fun v => Val.ty (W.classOf v)) ++ kvs.map (fun p => Val.kwTy p.1 (W.classOf p.2)))).mapM toKeyElt
+      = some (hks ++ keyOf W avs kvs) :=
+  mapM_append_some _ _ _ _ _ h (mapM_append_some _ _ _ _ _ (mapM_toKeyElt_pos W avs) (mapM_toKeyElt_kw W kvs))
+
+/-! ### small-step facts about `eval` on the shapes produced by the rewrite (stated with equations, no `match`) -/
+
+theorem eval_tuple_err (W : World) (es : List Expr) (ρ ρ' : Env) (l l' : Log) (e : Exn)
+    (h : evalList W es ρ l = (.error e, ρ', l')) : eval W (.tuple es) ρ l = (.error e, ρ', l') := by
+  simp only [eval, h]
+theorem eval_tuple_ok (W : World) (es : List Expr) (ρ ρ' : Env) (l l' : Log) (vs : List Val) (ks : List KeyElt)
+    (h : evalList W es ρ l = (.ok vs, ρ', l')) (hk : vs.mapM toKeyElt = some ks) :
+    eval W (.tuple es) ρ l = (.ok (.key ks), ρ', l') := by
+  simp only [eval, h, hk]
+theorem eval_mapsub_err (W : World) (ok : WOK W) (i : Expr) (ρ ρ' : Env) (l l' : Log) (e : Exn)
+    (h : eval W i ρ l = (.error e, ρ', l')) : eval W (.subscript (.glob "MAP") i) ρ l = (.error e, ρ', l') := by
+  simp only [eval, ok.map, h]
+theorem eval_mapsub_miss (W : World) (ok : WOK W) (i : Expr) (ρ ρ' : Env) (l l' : Log) (ks : List KeyElt) (e : Exn)
+    (h : eval W i ρ l = (.ok (.key ks), ρ', l')) (hL : W.lookup ks = .error e) :
+    eval W (.subscript (.glob "MAP") i) ρ l = (.error e, ρ', l') := by
+  simp only [eval, ok.map, h, hL]
+theorem eval_mapsub_hit (W : World) (ok : WOK W) (i : Expr) (ρ ρ' : Env) (l l' : Log) (ks : List KeyElt) (hd : Nat)
+    (h : eval W i ρ l = (.ok (.key ks), ρ', l')) (hL : W.lookup ks = .ok hd) :
+    eval W (.subscript (.glob "MAP") i) ρ l = (.ok (.fn hd), ρ', l') := by
+  simp only [eval, ok.map, h, hL]
+theorem eval_call_errf (W : World) (f : Expr) (as : List Expr) (ks : List (String × Expr)) (ρ ρ' : Env) (l l' : Log) (e : Exn)
+    (h : eval W f ρ l = (.error e, ρ', l')) : eval W (.call f as ks) ρ l = (.error e, ρ', l') := by
+  simp only [eval, h]
+theorem eval_call_erra (W : World) (f : Expr) (as : List Expr) (ks : List (String × Expr)) (ρ ρ1 ρ' : Env) (l l1 l' : Log)
+    (fv : Val) (e : Exn)
+    (h : eval W f ρ l = (.ok fv, ρ1, l1)) (ha : evalList W as ρ1 l1 = (.error e, ρ', l')) :
+    eval W (.call f as ks) ρ l = (.error e, ρ', l') := by
+  simp only [eval, h, ha]
+theorem eval_call_errk (W : World) (f : Expr) (as : List Expr) (ks : List (String × Expr)) (ρ ρ1 ρ2 ρ' : Env) (l l1 l2 l' : Log)
+    (fv : Val) (avs : List Val) (e : Exn)
+    (h : eval W f ρ l = (.ok fv, ρ1, l1)) (ha : evalList W as ρ1 l1 = (.ok avs, ρ2, l2))
+    (hk : evalKws W ks ρ2 l2 = (.error e, ρ', l')) :
+    eval W (.call f as ks) ρ l = (.error e, ρ', l') := by
+  simp only [eval, h, ha, hk]
+theorem eval_call_ok (W : World) (f : Expr) (as : List Expr) (ks : List (String × Expr)) (ρ ρ1 ρ2 ρ3 : Env) (l l1 l2 l3 : Log)
+    (fv : Val) (avs : List Val) (kvs : List (String × Val))
+    (h : eval W f ρ l = (.ok fv, ρ1, l1)) (ha : evalList W as ρ1 l1 = (.ok avs, ρ2, l2))
+    (hk : evalKws W ks ρ2 l2 = (.ok kvs, ρ3, l3)) :
+    eval W (.call f as ks) ρ l = ((applyVal W fv avs kvs l3).1, ρ3, (applyVal W fv avs kvs l3).2) := by
+  simp only [eval, h, ha, hk]
+theorem eval_glob_ok (W : World) (g : String) (v : Val) (ρ : Env) (l : Log) (h : W.globals g = some v) :
+    eval W (.glob g) ρ l = (.ok v, ρ, l) := by
+  simp only [eval, h]
+
+/-- a dispatcher: look `hks ++ key of the actual arguments` up in the table, apply the handler -/
+def dispatchWith (W : World) (hks : List KeyElt) (avs : List Val) (kvs : List (String × Val)) (l : Log) : Except Exn Val × Log :=
+  match W.lookup (hks ++ keyOf W avs kvs) with
+  | .ok h => W.applyFn h avs kvs l
+  | .error e => (.error e, l)
+
+theorem applyVal_dispatchObj (W : World) (avs : List Val) (kvs : List (String × Val)) (l : Log) :
+    applyVal W (.g .dispatchObj) avs kvs l = dispatchWith W [] avs kvs l := by
+  simp only [applyVal, dispatchWith, List.nil_append]
+  cases W.lookup (keyOf W avs kvs) <;> rfl
+theorem applyVal_nextObj (W : World) (avs : List Val) (kvs : List (String × Val)) (l : Log) :
+    applyVal W (.g .nextObj) avs kvs l = dispatchWith W [.code W.code] avs kvs l := by
+  simp only [applyVal, dispatchWith, List.cons_append, List.nil_append]
+  cases W.lookup (KeyElt.code W.code :: keyOf W avs kvs) <;> rfl
+
+/-- the heart of C09: a dispatcher call `g(args, kws)` against `MAP[(hd..., type parts...)](temporaries...)`, where the
+    key prefix expressions `hd` evaluate without effect to values whose key elements are the dispatcher's prefix -/
+theorem sim_call (W : World) (ok : WOK W) (args : List Expr) (kws : List (String × Expr))
+    (hA : PArgs W args) (hK : PKwArgs W kws)
+    (g : String) (fv : Val) (hd : List Expr) (hvs : List Val) (hks : List KeyElt)
+    (hglob : W.globals g = some fv)
+    (happ : ∀ avs kvs l, applyVal W fv avs kvs l = dispatchWith W hks avs kvs l)
+    (hhd : ∀ ρ l, evalList W hd ρ l = (.ok hvs, ρ, l)) (hkey : hvs.mapM toKeyElt = some hks)
+    (k : Nat) (ρ ρ₂ : Env) (l : Log)
+    (hua : userOnlyL args = true) (huk : userOnlyK kws = true) (hdn : distinctNames (kws.map Prod.fst) = true)
+    (ha : Agree ρ ρ₂) :
+    k ≤ (rwKws kws k (rwArgs args k 0 (k + 1)).2).2 ∧
+    Sim k (rwKws kws k (rwArgs args k 0 (k + 1)).2).2 ρ₂
+      (eval W (.call (.glob g) args kws) ρ l)
+      (eval W (.call (.subscript (.glob "MAP") (.tuple (hd ++ ((rwArgs args k 0 (k + 1)).1 ++ (rwKws kws k (rwArgs args k 0 (k + 1)).2).1))))
+                (tmpVars k 0 args) (tmpKws k kws)) ρ₂ l) := by
+  obtain ⟨hc, hm⟩ := hA k 0 (k + 1) ρ ρ₂ l hua ha (Nat.lt_succ_self k)
+  have hf0 := eval_glob_ok W g fv ρ l hglob
+  generalize hE : evalList W args ρ l = o at hm
+  obtain ⟨r, ρ', l'⟩ := o
+  cases r with
+  | error ex =>
+    dsimp only at hm
+    obtain ⟨ρ₂', hev, hag, hfr⟩ := hm
+    have hc2 := (hK k (rwArgs args k 0 (k + 1)).2 ρ' ρ₂' l' huk hdn hag (by omega)).1
+    refine ⟨by omega, ?_⟩
+    have h1 : evalList W (hd ++ ((rwArgs args k 0 (k + 1)).1 ++ (rwKws kws k (rwArgs args k 0 (k + 1)).2).1)) ρ₂ l
+        = (.error ex, ρ₂', l') := by
+      rw [evalList_append_ok W _ _ _ _ _ _ _ (hhd ρ₂ l), evalList_append_err1 W _ _ _ _ _ _ _ hev]; rfl
+    rw [eval_call_erra W _ _ _ _ _ _ _ _ _ _ _ hf0 hE,
+      eval_call_errf W _ _ _ _ _ _ _ _ (eval_mapsub_err W ok _ _ _ _ _ _ (eval_tuple_err W _ _ _ _ _ _ h1))]
+    exact ⟨rfl, rfl, hag, fun j s hj => hfr j s (by omega)⟩
+  | ok avs =>
+    dsimp only at hm
+    obtain ⟨ρ₂', hev, hag, hfr, _, hslots, hlen⟩ := hm
+    obtain ⟨hc2, hm2⟩ := hK k (rwArgs args k 0 (k + 1)).2 ρ' ρ₂' l' huk hdn hag (by omega)
+    refine ⟨by omega, ?_⟩
+    generalize hE2 : evalKws W kws ρ' l' = o2 at hm2
+    obtain ⟨r2, ρ'', l''⟩ := o2
+    cases r2 with
+    | error ex =>
+      dsimp only at hm2
+      obtain ⟨ρ₂'', hev2, hag2, hfr2⟩ := hm2
+      have h1 : evalList W (hd ++ ((rwArgs args k 0 (k + 1)).1 ++ (rwKws kws k (rwArgs args k 0 (k + 1)).2).1)) ρ₂ l
+          = (.error ex, ρ₂'', l'') := by
+        rw [evalList_append_ok W _ _ _ _ _ _ _ (hhd ρ₂ l), evalList_append_ok W _ _ _ _ _ _ _ hev, hev2]; rfl
+      rw [eval_call_errk W _ _ _ _ _ _ _ _ _ _ _ _ _ _ hf0 hE hE2,
+        eval_call_errf W _ _ _ _ _ _ _ _ (eval_mapsub_err W ok _ _ _ _ _ _ (eval_tuple_err W _ _ _ _ _ _ h1))]
+      have hframe : Frame k (rwKws kws k (rwArgs args k 0 (k + 1)).2).2 ρ₂ ρ₂'' := by
+        intro j s hj
+        rw [hfr2 j s (by omega)]; exact hfr j s (by omega)
+      exact ⟨rfl, rfl, hag2, hframe⟩
+    | ok kvs =>
+      dsimp only at hm2
+      obtain ⟨ρ₂'', hev2, hag2, hfr2, hother2, hread2⟩ := hm2
+      have hframe : Frame k (rwKws kws k (rwArgs args k 0 (k + 1)).2).2 ρ₂ ρ₂'' := by
+        intro j s hj
+        rw [hfr2 j s (by omega)]; exact hfr j s (by omega)
+      have h1 : evalList W (hd ++ ((rwArgs args k 0 (k + 1)).1 ++ (rwKws kws k (rwArgs args k 0 (k + 1)).2).1)) ρ₂ l
+          = (.ok (hvs ++ (avs.map (fun v => Val.ty (W.classOf v)) ++ kvs.map (fun p => Val.kwTy p.1 (W.classOf p.2)))), ρ₂'', l'') := by
+        rw [evalList_append_ok W _ _ _ _ _ _ _ (hhd ρ₂ l), evalList_append_ok W _ _ _ _ _ _ _ hev, hev2]; rfl
+      have h2 := eval_tuple_ok W _ _ _ _ _ _ _ h1 (mapM_toKeyElt W hvs hks hkey avs kvs)
+      rw [eval_call_ok W _ _ _ _ _ _ _ _ _ _ _ _ _ _ hf0 hE hE2, happ]
+      cases hL : W.lookup (hks ++ keyOf W avs kvs) with
+      | error ex =>
+        rw [eval_call_errf W _ _ _ _ _ _ _ _ (eval_mapsub_miss W ok _ _ _ _ _ _ _ h2 hL)]
+        simp only [dispatchWith, hL]
+        exact ⟨rfl, rfl, hag2, hframe⟩
+      | ok h =>
+        have hread := evalList_tmpVars W k ρ₂'' l'' args avs 0 hlen (by
+          intro m hm
+          rw [hother2 (.pos (0 + m)) (by intro n _ e; cases e)]
+          exact hslots m hm)
+        rw [eval_call_ok W _ _ _ _ _ _ _ _ _ _ _ _ _ _ (eval_mapsub_hit W ok _ _ _ _ _ _ _ h2 hL) hread (hread2 l'')]
+        simp only [dispatchWith, hL, applyVal]
+        exact ⟨rfl, rfl, hag2, hframe⟩
+
+theorem rw_call_recurse (args : List Expr) (kws : List (String × Expr)) (k : Nat) :
+    rw (.call (.glob "recurse") args kws) k =
+      ((.call (.subscript (.glob "MAP") (.tuple ((rwArgs args k 0 (k + 1)).1 ++ (rwKws kws k (rwArgs args k 0 (k + 1)).2).1)))
+          (tmpVars k 0 args) (tmpKws k kws)), (rwKws kws k (rwArgs args k 0 (k + 1)).2).2) := by
+  simp only [rw]
+
+theorem rw_call_next (args : List Expr) (kws : List (String × Expr)) (k : Nat) :
+    rw (.call (.glob "call_next") args kws) k =
+      ((.call (.subscript (.glob "MAP") (.tuple (.glob "CODE" :: ((rwArgs args k 0 (k + 1)).1 ++ (rwKws kws k (rwArgs args k 0 (k + 1)).2).1))))
+          (tmpVars k 0 args) (tmpKws k kws)), (rwKws kws k (rwArgs args k 0 (k + 1)).2).2) := by
   simp only [rw]
 
 theorem rw_call_general (f : Expr) (args : List Expr) (kws : List (String × Expr)) (k : Nat)
-    (h : ¬ (f = .glob "recurse" ∧ kws = [])) :
+    (h1 : f ≠ .glob "recurse") (h2 : f ≠ .glob "call_next") :
     rw (.call f args kws) k =
       (.call (rw f k).1 (rwList args (rw f k).2).1 (rwKwList kws (rwList args (rw f k).2).2).1,
        (rwKwList kws (rwList args (rw f k).2).2).2) := by
-  conv => lhs; simp only [rw]
-  split
-  · exact absurd ⟨rfl, rfl⟩ h
-  · rfl
+  simp only [rw]
 
 theorem sizeOf_mem_lt {es : List Expr} {e : Expr} (h : e ∈ es) : sizeOf e < sizeOf es := List.sizeOf_lt_of_mem h
 theorem sizeOf_kw_mem_lt {es : List (String × Expr)} {p : String × Expr} (h : p ∈ es) : sizeOf p.2 < sizeOf es := by
@@ -276,7 +608,7 @@ theorem sizeOf_kw_mem_lt {es : List (String × Expr)} {p : String × Expr} (h : 
   omega
 
 /-- helper: sequencing two simulated steps -/
-theorem Sim.seq_err {α β : Type} {k k1 k2 : Nat} {ρ₂ ρ ρ' : Env} {l : Log} {ex : Exn}
+theorem Sim.seq_err {β : Type} {k k1 k2 : Nat} {ρ₂ ρ ρ' : Env} {l : Log} {ex : Exn}
     (hf : Frame k k1 ρ₂ ρ') (hag : Agree ρ ρ') (h12 : k1 ≤ k2) :
     Sim (α := β) k k2 ρ₂ (.error ex, ρ, l) (.error ex, ρ', l) :=
   ⟨rfl, rfl, hag, hf.widen (Nat.le_refl _) h12⟩
@@ -420,19 +752,14 @@ theorem pExpr (W : World) (ok : WOK W) : ∀ (n : Nat) (e : Expr), sizeOf e < n 
         | int x =>
           by_cases hx : x = 0
           · subst hx; exact branchB
-          · have key : ∀ (F G : Env → Log → Except Exn Val × Env × Log) (ρa : Env) (la : Log),
-                (match ((Except.ok (Val.int x) : Except Exn Val), ρa, la) with
-                  | (.ok (.int 0), ρ', l') => F ρ' l'
-                  | (.ok _, ρ', l') => G ρ' l'
-                  | r => r) = G ρa la := by
-              intro F G ρa la
+          · split
+            · rename_i h; injection h with h _; injection h with h; injection h with h; exact absurd h hx
+            · rename_i h; injection h with h1 h2; injection h2 with h2 h3; subst h2; subst h3
               split
               · rename_i h; injection h with h _; injection h with h; injection h with h; exact absurd h hx
-              · rename_i h; injection h with h1 h2; injection h2 with h2 h3; subst h2; subst h3; rfl
+              · rename_i h; injection h with h1 h2; injection h2 with h2 h3; subst h2; subst h3; exact branchA
               · rename_i h1 h2; exact absurd rfl (h2 _ _ _)
-            rw [key (fun ρ' l' => eval W b ρ' l') (fun ρ' l' => eval W a ρ' l'),
-                key (fun ρ' l' => eval W (rw b (rw a (rw c k).2).2).1 ρ' l') (fun ρ' l' => eval W (rw a (rw c k).2).1 ρ' l')]
-            exact branchA
+            · rename_i h1 h2; exact absurd rfl (h2 _ _ _)
         | _ => exact branchA
     | subscript a b =>
       intro k ρ ρ₂ l hu ha
@@ -487,40 +814,21 @@ theorem pExpr (W : World) (ok : WOK W) : ∀ (n : Nat) (e : Expr), sizeOf e < n 
       simp only [userOnly, Bool.and_eq_true] at hu
       have ihA : ∀ e ∈ args, PExpr W e := fun e he => ih e (by have := sizeOf_mem_lt he; simp at hsz; omega)
       have ihK : ∀ p ∈ kws, PExpr W p.2 := fun p hp => ih p.2 (by have := sizeOf_kw_mem_lt hp; simp at hsz; omega)
-      by_cases hspec : f = .glob "recurse" ∧ kws = []
-      · -- the rewritten call:  MAP[(type(t0 := a0'), …)](t0, …)
-        obtain ⟨hf', hk'⟩ := hspec
-        subst hf'; subst hk'
+      by_cases hrec : f = .glob "recurse"
+      · -- the rewritten call:  MAP[(type(t0 := a0'), …, ('n', type(tn := e')), …)](t0, …, n=tn, …)
+        subst hrec
         rw [rw_call_recurse]
-        obtain ⟨hc, hm⟩ := pArgs_of W ok args ihA k 0 (k + 1) ρ ρ₂ l hu.1.2 ha (Nat.lt_succ_self k)
-        refine ⟨by omega, ?_⟩
-        -- original side: evaluate `recurse`, the arguments, then dispatch
-        simp only [eval, ok.recurse, ok.map, evalKws]
-        generalize hE : evalList W args ρ l = o at hm
-        obtain ⟨r, ρ', l'⟩ := o
-        cases r with
-        | error ex =>
-          dsimp only at hm ⊢
-          obtain ⟨ρ₂', hev, hag, hfr⟩ := hm
-          rw [hev]
-          exact ⟨rfl, rfl, hag, hfr⟩
-        | ok avs =>
-          dsimp only at hm ⊢
-          obtain ⟨ρ₂', hev, hag, hfr, _, hslots, hlen⟩ := hm
-          rw [hev]
-          dsimp only
-          rw [mapM_toKeyElt]
-          dsimp only
-          have hread := evalList_tmpVars W k ρ₂' l' args avs 0 hlen (by intro m h; simpa using hslots m h)
-          simp only [applyVal]
-          cases hL : W.lookup (keyOf W avs []) with
-          | error ex => exact ⟨rfl, rfl, hag, hfr⟩
-          | ok h =>
-            dsimp only
-            rw [hread]
-            exact ⟨rfl, rfl, hag, hfr⟩
-      · rw [rw_call_general f args kws k hspec]
-        have h1 := ih f (by simp at hsz; omega) k ρ ρ₂ l hu.1.1 ha
+        exact sim_call W ok args kws (pArgs_of W ok args ihA) (pKwArgs_of W ok kws ihK) "recurse" (.g .dispatchObj) [] [] []
+          ok.recurse (applyVal_dispatchObj W) (fun _ _ => rfl) rfl k ρ ρ₂ l hu.1.1.2 hu.1.2 hu.2 ha
+      by_cases hnext : f = .glob "call_next"
+      · -- the rewritten call:  MAP[(CODE, type(t0 := a0'), …)](t0, …)
+        subst hnext
+        rw [rw_call_next]
+        exact sim_call W ok args kws (pArgs_of W ok args ihA) (pKwArgs_of W ok kws ihK) "call_next" (.g .nextObj)
+          [.glob "CODE"] [.g (.codeObj W.code)] [.code W.code]
+          ok.callNext (applyVal_nextObj W) (fun _ _ => by simp only [evalList, eval, ok.code]) rfl k ρ ρ₂ l hu.1.1.2 hu.1.2 hu.2 ha
+      · rw [rw_call_general f args kws k hrec hnext]
+        have h1 := ih f (by simp at hsz; omega) k ρ ρ₂ l hu.1.1.1 ha
         obtain ⟨hk, ⟨hr, hl, hag, hf⟩⟩ := h1
         simp only [eval]
         generalize eval W f ρ l = o at hr hl hag
@@ -529,8 +837,8 @@ theorem pExpr (W : World) (ok : WOK W) : ∀ (n : Nat) (e : Expr), sizeOf e < n 
         obtain ⟨r2, ρ1', l1'⟩ := o2
         simp only at hr hl hag hf
         subst hr; subst hl
-        obtain ⟨hk2, ⟨hr2, hl2, hag2, hf2⟩⟩ := pList_of W args ihA (rw f k).2 ρ1 ρ1' l1' hu.1.2 hag
-        have hk3 := (pKws_of W kws ihK (rwList args (rw f k).2).2 ρ1 ρ1' l1' hu.2 hag).1
+        obtain ⟨hk2, ⟨hr2, hl2, hag2, hf2⟩⟩ := pList_of W args ihA (rw f k).2 ρ1 ρ1' l1' hu.1.1.2 hag
+        have hk3 := (pKws_of W kws ihK (rwList args (rw f k).2).2 ρ1 ρ1' l1' hu.1.2 hag).1
         refine ⟨by omega, ?_⟩
         cases r2 with
         | error ex => exact ⟨rfl, rfl, hag, hf.widen (Nat.le_refl _) (by omega)⟩
@@ -542,7 +850,7 @@ theorem pExpr (W : World) (ok : WOK W) : ∀ (n : Nat) (e : Expr), sizeOf e < n 
           obtain ⟨q2, ρq2, lq2⟩ := p2
           simp only at hr2 hl2 hag2 hf2
           subst hr2; subst hl2
-          obtain ⟨hk4, ⟨hr3, hl3, hag3, hf3⟩⟩ := pKws_of W kws ihK (rwList args (rw f k).2).2 ρq ρq2 lq2 hu.2 hag2
+          obtain ⟨hk4, ⟨hr3, hl3, hag3, hf3⟩⟩ := pKws_of W kws ihK (rwList args (rw f k).2).2 ρq ρq2 lq2 hu.1.2 hag2
           cases q2 with
           | error ex => exact ⟨rfl, rfl, hag2, (hf.trans hf2 hk hk2).widen (Nat.le_refl _) hk4⟩
           | ok avs =>
@@ -558,7 +866,7 @@ theorem pExpr (W : World) (ok : WOK W) : ∀ (n : Nat) (e : Expr), sizeOf e < n 
             | ok kvs => exact ⟨rfl, rfl, hag3, (hf.trans hf2 hk hk2).trans hf3 (by omega) hk4⟩
 
 
-/-- C09 (prototype form): for every expression written without the reserved temporaries, the rewritten expression
+/-- C09: for every well-formed expression written without the reserved temporaries, the rewritten expression
     evaluates to the same result / exception with the same sequence of side effects, and leaves the user's
     variables identical. -/
 theorem C09_rewrite_preserves (W : World) (ok : WOK W) (e : Expr) (ρ : Env) (l : Log) (hu : userOnly e = true) :
@@ -566,8 +874,190 @@ theorem C09_rewrite_preserves (W : World) (ok : WOK W) (e : Expr) (ρ : Env) (l 
       ∧ Agree (eval W e ρ l).2.1 (eval W (rw e 0).1 ρ l).2.1 := by
   have h := (pExpr W ok (sizeOf e + 1) e (Nat.lt_succ_self _) 0 ρ ρ l hu (fun _ => rfl)).2
   exact ⟨h.res, h.log, h.agree⟩
-#print axioms C09_rewrite_preserves
 
-/-! A concrete run (not a proof of anything general): `recurse(tick a (x), recurse(tick b (1)))`. -/
+
+/-! ### arguments are evaluated exactly once, in source order, before the lookup -/
+
+/-- positional arguments `tick t₁ n₁, tick t₂ n₂, …` (each logs its tag when evaluated) -/
+def tickArgs (ts : List (String × Int)) : List Expr := ts.map (fun p => .tick p.1 (.lit p.2))
+/-- keyword arguments `name₁ = tick t₁ n₁, …` -/
+def tickKws (ks : List (String × String × Int)) : List (String × Expr) := ks.map (fun p => (p.1, .tick p.2.1 (.lit p.2.2)))
+
+theorem evalList_tickArgs (W : World) : ∀ (ts : List (String × Int)) (ρ : Env) (l : Log),
+    evalList W (tickArgs ts) ρ l = (.ok (ts.map (fun p => Val.int p.2)), ρ, l ++ ts.map (fun p => p.1))
+  | [], ρ, l => by simp [tickArgs, evalList]
+  | p :: ts, ρ, l => by
+    have ih := evalList_tickArgs W ts ρ (l ++ [p.1])
+    simp only [tickArgs] at ih
+    simp [tickArgs, evalList, eval, ih]
+
+theorem evalKws_tickKws (W : World) : ∀ (ks : List (String × String × Int)) (ρ : Env) (l : Log),
+    evalKws W (tickKws ks) ρ l = (.ok (ks.map (fun p => (p.1, Val.int p.2.2))), ρ, l ++ ks.map (fun p => p.2.1))
+  | [], ρ, l => by simp [tickKws, evalKws]
+  | p :: ks, ρ, l => by
+    have ih := evalKws_tickKws W ks ρ (l ++ [p.2.1])
+    simp only [tickKws] at ih
+    simp [tickKws, evalKws, eval, ih]
+
+theorem userOnlyL_tickArgs : ∀ (ts : List (String × Int)), userOnlyL (tickArgs ts) = true
+  | [] => rfl
+  | p :: ts => by
+    have ih := userOnlyL_tickArgs ts
+    simp only [tickArgs] at ih
+    simp [tickArgs, userOnlyL, userOnly, ih]
+theorem userOnlyK_tickKws : ∀ (ks : List (String × String × Int)), userOnlyK (tickKws ks) = true
+  | [] => rfl
+  | p :: ks => by
+    have ih := userOnlyK_tickKws ks
+    simp only [tickKws] at ih
+    simp [tickKws, userOnlyK, userOnly, ih]
+
+theorem args_once_in_order_aux (W : World) (ok : WOK W) (g : String) (fv : Val) (hg : W.globals g = some fv)
+    (ts : List (String × Int)) (ks : List (String × String × Int))
+    (hd : distinctNames (ks.map (fun p => p.1)) = true) (ρ : Env) (l : Log) :
+    (eval W (rw (.call (.glob g) (tickArgs ts) (tickKws ks)) 0).1 ρ l).1
+        = (applyVal W fv (ts.map (fun p => Val.int p.2)) (ks.map (fun p => (p.1, Val.int p.2.2)))
+            (l ++ ts.map (fun p => p.1) ++ ks.map (fun p => p.2.1))).1
+    ∧ (eval W (rw (.call (.glob g) (tickArgs ts) (tickKws ks)) 0).1 ρ l).2.2
+        = (applyVal W fv (ts.map (fun p => Val.int p.2)) (ks.map (fun p => (p.1, Val.int p.2.2)))
+            (l ++ ts.map (fun p => p.1) ++ ks.map (fun p => p.2.1))).2 := by
+  have hu : userOnly (.call (.glob g) (tickArgs ts) (tickKws ks)) = true := by
+    have e : (tickKws ks).map Prod.fst = ks.map (fun p => p.1) := by simp [tickKws, List.map_map, Function.comp_def]
+    simp [userOnly, userOnlyL_tickArgs, userOnlyK_tickKws, e, hd]
+  obtain ⟨h1, h2, _⟩ := C09_rewrite_preserves W ok _ ρ l hu
+  rw [h1, h2, eval_call_ok W _ _ _ _ _ _ _ _ _ _ _ _ _ _ (eval_glob_ok W g fv ρ l hg) (evalList_tickArgs W ts ρ l)
+    (evalKws_tickKws W ks ρ _)]
+  exact ⟨rfl, rfl⟩
+
+/-- C09, order and multiplicity: in the rewritten `recurse(tick t₁ n₁, …, name = tick t n, …)` every argument is
+    evaluated exactly once, positional arguments first, each group in source order, and all of them before the
+    dispatch: the dispatcher runs on the argument values with the log `l ++ positional tags ++ keyword tags`. -/
+theorem C09_args_once_in_order (W : World) (ok : WOK W) (ts : List (String × Int)) (ks : List (String × String × Int))
+    (hd : distinctNames (ks.map (fun p => p.1)) = true) (ρ : Env) (l : Log) :
+    (eval W (rw (.call (.glob "recurse") (tickArgs ts) (tickKws ks)) 0).1 ρ l).1
+        = (applyVal W (.g .dispatchObj) (ts.map (fun p => Val.int p.2)) (ks.map (fun p => (p.1, Val.int p.2.2)))
+            (l ++ ts.map (fun p => p.1) ++ ks.map (fun p => p.2.1))).1
+    ∧ (eval W (rw (.call (.glob "recurse") (tickArgs ts) (tickKws ks)) 0).1 ρ l).2.2
+        = (applyVal W (.g .dispatchObj) (ts.map (fun p => Val.int p.2)) (ks.map (fun p => (p.1, Val.int p.2.2)))
+            (l ++ ts.map (fun p => p.1) ++ ks.map (fun p => p.2.1))).2 :=
+  args_once_in_order_aux W ok "recurse" _ ok.recurse ts ks hd ρ l
+
+/-- the same for `call_next(…)` -/
+theorem C09_args_once_in_order_next (W : World) (ok : WOK W) (ts : List (String × Int)) (ks : List (String × String × Int))
+    (hd : distinctNames (ks.map (fun p => p.1)) = true) (ρ : Env) (l : Log) :
+    (eval W (rw (.call (.glob "call_next") (tickArgs ts) (tickKws ks)) 0).1 ρ l).1
+        = (applyVal W (.g .nextObj) (ts.map (fun p => Val.int p.2)) (ks.map (fun p => (p.1, Val.int p.2.2)))
+            (l ++ ts.map (fun p => p.1) ++ ks.map (fun p => p.2.1))).1
+    ∧ (eval W (rw (.call (.glob "call_next") (tickArgs ts) (tickKws ks)) 0).1 ρ l).2.2
+        = (applyVal W (.g .nextObj) (ts.map (fun p => Val.int p.2)) (ks.map (fun p => (p.1, Val.int p.2.2)))
+            (l ++ ts.map (fun p => p.1) ++ ks.map (fun p => p.2.1))).2 :=
+  args_once_in_order_aux W ok "call_next" _ ok.callNext ts ks hd ρ l
+
+/-! ### `rw` leaves everything else alone -/
+
+theorem rwList_id : ∀ (es : List Expr), (∀ e ∈ es, noRecCall e = true → ∀ k, rw e k = (e, k)) → noRecCallL es = true →
+    ∀ k, rwList es k = (es, k)
+  | [], _, _, k => by simp only [rwList]
+  | e :: es, h, hn, k => by
+    simp only [noRecCallL, Bool.and_eq_true] at hn
+    simp only [rwList, h e (List.mem_cons_self ..) hn.1, rwList_id es (fun x hx => h x (List.mem_cons_of_mem _ hx)) hn.2]
+
+theorem rwKwList_id : ∀ (es : List (String × Expr)), (∀ p ∈ es, noRecCall p.2 = true → ∀ k, rw p.2 k = (p.2, k)) →
+    noRecCallK es = true → ∀ k, rwKwList es k = (es, k)
+  | [], _, _, k => by simp only [rwKwList]
+  | (n, e) :: es, h, hn, k => by
+    simp only [noRecCallK, Bool.and_eq_true] at hn
+    have he : ∀ k, rw e k = (e, k) := h (n, e) (List.mem_cons_self ..) hn.1
+    simp only [rwKwList, he, rwKwList_id es (fun x hx => h x (List.mem_cons_of_mem _ hx)) hn.2]
+
+theorem rw_id_aux : ∀ (n : Nat) (e : Expr), sizeOf e < n → noRecCall e = true → ∀ k, rw e k = (e, k) := by
+  intro n
+  induction n with
+  | zero => intro e h; omega
+  | succ n ih =>
+    intro e hsz hn k
+    cases e with
+    | lit m => simp only [rw]
+    | glob x => simp only [rw]
+    | var x => simp only [rw]
+    | named x e1 =>
+      simp only [noRecCall] at hn
+      simp only [rw, ih e1 (by simp at hsz; omega) hn]
+    | tick t e1 =>
+      simp only [noRecCall] at hn
+      simp only [rw, ih e1 (by simp at hsz; omega) hn]
+    | pair nm e1 =>
+      simp only [noRecCall] at hn
+      simp only [rw, ih e1 (by simp at hsz; omega) hn]
+    | add a b =>
+      simp only [noRecCall, Bool.and_eq_true] at hn
+      simp only [rw, ih a (by simp at hsz; omega) hn.1, ih b (by simp at hsz; omega) hn.2]
+    | subscript a b =>
+      simp only [noRecCall, Bool.and_eq_true] at hn
+      simp only [rw, ih a (by simp at hsz; omega) hn.1, ih b (by simp at hsz; omega) hn.2]
+    | ite c a b =>
+      simp only [noRecCall, Bool.and_eq_true] at hn
+      simp only [rw, ih c (by simp at hsz; omega) hn.1.1, ih a (by simp at hsz; omega) hn.1.2, ih b (by simp at hsz; omega) hn.2]
+    | tuple es =>
+      simp only [noRecCall] at hn
+      simp only [rw, rwList_id es (fun e he => ih e (by have := sizeOf_mem_lt he; simp at hsz; omega)) hn]
+    | call f args kws =>
+      simp only [noRecCall, Bool.and_eq_true, Bool.not_eq_true'] at hn
+      have h1 : f ≠ .glob "recurse" := by intro e; subst e; simp [isRecName] at hn
+      have h2 : f ≠ .glob "call_next" := by intro e; subst e; simp [isRecName] at hn
+      rw [rw_call_general f args kws k h1 h2, ih f (by simp at hsz; omega) hn.1.1.2,
+        rwList_id args (fun e he => ih e (by have := sizeOf_mem_lt he; simp at hsz; omega)) hn.1.2,
+        rwKwList_id kws (fun p hp => ih p.2 (by have := sizeOf_kw_mem_lt hp; simp at hsz; omega)) hn.2]
+
+/-- an expression that contains no call of the globals `recurse` / `call_next` is returned unchanged (and consumes
+    no temporary prefix) -/
+theorem rw_id (e : Expr) (h : noRecCall e = true) (k : Nat) : (rw e k).1 = e := by
+  rw [rw_id_aux (sizeOf e + 1) e (Nat.lt_succ_self _) h k]
+theorem rw_id_counter (e : Expr) (h : noRecCall e = true) (k : Nat) : (rw e k).2 = k := by
+  rw [rw_id_aux (sizeOf e + 1) e (Nat.lt_succ_self _) h k]
+
+/-! ### a concrete run: nested calls, keywords, `call_next`
+
+`recurse(tick a (x), call_next(tick b (1), u = tick c (2)), p = tick d (1), q = recurse(z = tick e (0)))` -/
+namespace Example
+def W0 : World where
+  globals := fun s =>
+    if s = "recurse" then some (.g .dispatchObj) else if s = "call_next" then some (.g .nextObj)
+    else if s = "MAP" then some (.g .mapObj) else if s = "type" then some (.g .typeFn)
+    else if s = "CODE" then some (.g (.codeObj 3)) else none
+  classOf := fun v => match v with | .int _ => 1 | _ => 0
+  lookup := fun ks => if ks.length = 1 then .ok 7 else if ks.length = 2 then .ok 8 else .ok 9
+  code := 3
+  applyFn := fun h args kws l => (.ok (.int (h + args.length + 10 * kws.length)), l ++ [s!"enter{h}"])
+def e0 : Expr :=
+  .call (.glob "recurse")
+    [.tick "a" (.var (.user "x")), .call (.glob "call_next") [.tick "b" (.lit 1)] [("u", .tick "c" (.lit 2))]]
+    [("p", .tick "d" (.lit 1)), ("q", .call (.glob "recurse") [] [("z", .tick "e" (.lit 0))])]
+def ρ0 : Env := fun n => if n = .user "x" then some (.int 5) else none
+
+theorem W0_ok : WOK W0 := ⟨rfl, rfl, rfl, rfl, rfl⟩
+
+/-- the temporaries: prefix 0 for the outer call, 1 for `call_next(…)` (visited among the positional arguments), 2 for
+    the `recurse(…)` in the keyword value -/
+example : rw e0 0 =
+    (.call (.subscript (.glob "MAP") (.tuple
+        [typeCall (.tmp 0 (.pos 0)) (.tick "a" (.var (.user "x"))),
+         typeCall (.tmp 0 (.pos 1))
+           (.call (.subscript (.glob "MAP") (.tuple
+               [.glob "CODE", typeCall (.tmp 1 (.pos 0)) (.tick "b" (.lit 1)),
+                .pair "u" (typeCall (.tmp 1 (.kw "u")) (.tick "c" (.lit 2)))]))
+             [.var (.tmp 1 (.pos 0))] [("u", .var (.tmp 1 (.kw "u")))]),
+         .pair "p" (typeCall (.tmp 0 (.kw "p")) (.tick "d" (.lit 1))),
+         .pair "q" (typeCall (.tmp 0 (.kw "q"))
+           (.call (.subscript (.glob "MAP") (.tuple [.pair "z" (typeCall (.tmp 2 (.kw "z")) (.tick "e" (.lit 0)))]))
+             [] [("z", .var (.tmp 2 (.kw "z")))]))]))
+      [.var (.tmp 0 (.pos 0)), .var (.tmp 0 (.pos 1))]
+      [("p", .var (.tmp 0 (.kw "p"))), ("q", .var (.tmp 0 (.kw "q")))], 3) := by rfl
+
+example : (eval W0 e0 ρ0 []).2.2 = ["a", "b", "c", "enter9", "d", "e", "enter7", "enter9"] := by decide
+example : (eval W0 (rw e0 0).1 ρ0 []).2.2 = ["a", "b", "c", "enter9", "d", "e", "enter7", "enter9"] := by decide
+example : (eval W0 (rw e0 0).1 ρ0 []).1 = .ok (.int 31) ∧ (eval W0 e0 ρ0 []).1 = .ok (.int 31) := ⟨rfl, rfl⟩
+example : (eval W0 (rw e0 0).1 ρ0 []).2.1 (.user "x") = some (.int 5) := by decide
+end Example
 
 end Ovld.Rw
